@@ -412,6 +412,14 @@ class BuildersProp(core.Prop):
                     yield self.case_from_desc({"rows": rows, "cols": cols, "cells": list(cells), "reg": reg2,
                                                "extras": [{"id": ["g", "A", 1], "enc": 9, "ipos": [0, 0]}],
                                                "text": "nl"})
+        # what the small scopes never reach: several hundred agents of ONE character (three-digit numbers, more than 256)
+        for _ in range(2 if quick else 12):
+            rows, cols = rng.randint(17, 20), rng.randint(16, 20)
+            ch = rng.choice("ABQ")
+            cells = [ch if rng.random() < 0.9 else "_" for _ in range(rows * cols)]
+            yield self.case_from_desc({"rows": rows, "cols": cols, "cells": cells, "reg": [[ch, 1], ["Z", 2]],
+                                       "extras": [], "text": "nl", "npseed": rng.randrange(2 ** 31),
+                                       "mem": rng.choice(("C", "F"))})
         for _ in range(500 if quick else 20000):
             yield self.case_from_desc(gen_desc(rng))
 
